@@ -1040,6 +1040,18 @@ def index_programs():
             tag(" c2=", ["idx", "c", lit(2)]), tag(" b2=", ["idx", "b", lit(2)]), tag(" b0=", ["idx", "b", lit(0)]),
             tag(" el=", ["call", "el", [var("b")]]), tag(" b1=", ["idx", "b", lit(1)])]
     out.append({"funcs": [nx, el], "closures": [], "main": main})
+    # a by-value foreach walks the array as it was when the loop started, whatever the body does to the array
+    main2 = [["expr", ["assign", "a", ["arr", [lit(1), lit(2), lit(3)]]]],
+             ["foreach", var("a"), "k", "v", [["setidx", "a", 2, lit(99)], ["expr", ["idxinc", True, "a", lit(1)]], ["push", "a", lit(7)],
+                                              tag(" v", var("v"))]],
+             ["foreach", var("a"), None, "w", [tag(" w", var("w"))]]]
+    out.append({"funcs": [], "closures": [], "main": main2})
+    # ++$x / --$x (variables and elements) as the statement right after a do-while
+    main3 = [["expr", ["assign", "q", lit(1)]], ["expr", ["assign", "b", ["arr", [lit(5), lit(3)]]]], ["expr", ["assign", "d", lit(0)]],
+             ["dowhile", [["expr", ["postinc", "d"]]], ["bin", "Lt", var("d"), lit(2)]], ["expr", ["idxinc", True, "b", lit(0)]],
+             ["dowhile", [["expr", ["postinc", "d"]]], ["bin", "Lt", var("d"), lit(1)]], ["expr", ["idxinc", False, "b", lit(1)]],
+             tag("b0=", ["idx", "b", lit(0)]), tag(" b1=", ["idx", "b", lit(1)]), tag(" d=", var("d"))]
+    out.append({"funcs": [], "closures": [], "main": main3})
     return out
 
 
